@@ -269,41 +269,72 @@ theorem declined_slot (s : LState) (ns p : Bytes) (reason : Reason) (x : Coord.S
 
 /-! ## C13 / C17: what a finished session leads to -/
 
-/-- a session that ended well registers the peer as useful (whatever the slot says); a failed one never does -/
-theorem finished_registers_iff_ok (s : LState) (ns p : Bytes) (origin : Nat) (res : Option (Nat × Nat × Heads.H)) :
-    (Out.register ns p ∈ (s.onSyncFinished ns p origin res).2) ↔ res.isSome = true := by
-  unfold LState.onSyncFinished
-  have hsend : ∀ (s : LState) (n : Bytes) (ev : Ev), Out.register ns p ∉ (s.send n ev).2 := by
-    intro s n ev
+theorem register_not_in_afterFinish (s : LState) (ns p : Bytes) (origin : Nat) (r : Option (Nat × Nat)) (resync : Bool)
+    (n q : Bytes) : Out.register n q ∉ (s.afterFinish ns p origin r resync).2 := by
+  have hsend : ∀ (s : LState) (m : Bytes) (ev : Ev), Out.register n q ∉ (s.send m ev).2 := by
+    intro s m ev
     unfold LState.send
     split <;> simp
-  have hdial : ∀ (s : LState) (r : Reason), Out.register ns p ∉ (s.syncWithPeer ns p r).2 := by
+  have hdial : ∀ (s : LState) (r : Reason), Out.register n q ∉ (s.syncWithPeer ns p r).2 := by
     intro s r
     unfold LState.syncWithPeer
     split
     · simp
     · split <;> simp
-  have hb : ∀ (s : LState) (pl : Bytes), Out.register ns p ∉ s.bcastNeighbors ns pl := by
-    intro s pl; unfold LState.bcastNeighbors; split <;> simp
+  unfold LState.afterFinish
+  simp only [List.mem_append, not_or]
+  refine ⟨⟨hsend _ _ _, ?_⟩, ?_⟩
+  · split
+    · simp
+    · exact hsend _ _ _
+  · split
+    · exact hdial _ _
+    · simp
+
+theorem register_mem_finishedOuts (s : LState) (ns p : Bytes) (res : Option (Nat × Nat × Heads.H)) :
+    Out.register ns p ∈ s.finishedOuts ns p res ↔ res.isSome = true := by
+  unfold LState.finishedOuts
   cases res with
-  | none =>
-    simp only [Option.isSome_none, Bool.false_eq_true, iff_false]
+  | none => simp
+  | some r => obtain ⟨recv, sent, heads⟩ := r; simp
+
+/-- a session that ended well registers the peer as useful (whatever the slot says); a failed one never does -/
+theorem finished_registers_iff_ok (s : LState) (ns p : Bytes) (origin : Nat) (res : Option (Nat × Nat × Heads.H)) :
+    (Out.register ns p ∈ (s.onSyncFinished ns p origin res).2) ↔ res.isSome = true := by
+  unfold LState.onSyncFinished
+  split
+  · exact register_mem_finishedOuts s ns p res
+  · split
+    · exact register_mem_finishedOuts s ns p res
+    · simp only [List.mem_append]
+      rw [register_mem_finishedOuts]
+      constructor
+      · rintro (h | h)
+        · exact h
+        · exact absurd h (register_not_in_afterFinish _ _ _ _ _ _ _ _)
+      · intro h; exact Or.inl h
+
+theorem broadcast_not_in_afterFinish (s : LState) (ns p : Bytes) (origin : Nat) (r : Option (Nat × Nat)) (resync : Bool)
+    (n pl : Bytes) (nb : Bool) : Out.broadcast n nb pl ∉ (s.afterFinish ns p origin r resync).2 := by
+  have hsend : ∀ (s : LState) (m : Bytes) (ev : Ev), Out.broadcast n nb pl ∉ (s.send m ev).2 := by
+    intro s m ev
+    unfold LState.send
+    split <;> simp
+  have hdial : ∀ (s : LState) (r : Reason), Out.broadcast n nb pl ∉ (s.syncWithPeer ns p r).2 := by
+    intro s r
+    unfold LState.syncWithPeer
     split
     · simp
-    · split
-      · simp
-      · simp only [List.nil_append, List.mem_append, not_or]
-        refine ⟨⟨hsend _ _ _, ?_⟩, ?_⟩
-        · split
-          · simp
-          · exact hsend _ _ _
-        · split
-          · exact hdial _ _
-          · simp
-  | some r =>
-    obtain ⟨recv, sent, heads⟩ := r
-    simp only [Option.isSome_some, iff_true]
-    split <;> (try split) <;> simp
+    · split <;> simp
+  unfold LState.afterFinish
+  simp only [List.mem_append, not_or]
+  refine ⟨⟨hsend _ _ _, ?_⟩, ?_⟩
+  · split
+    · simp
+    · exact hsend _ _ _
+  · split
+    · exact hdial _ _
+    · simp
 
 /-- a sync report is broadcast to the neighbours only after a session that brought entries -/
 theorem report_broadcast_only_if_received (s : LState) (ns p : Bytes) (origin : Nat)
@@ -313,32 +344,16 @@ theorem report_broadcast_only_if_received (s : LState) (ns p : Bytes) (origin : 
   by_cases hr : recv > 0
   · exact hr
   · exfalso
+    have hf : Out.broadcast ns true pl ∉ s.finishedOuts ns p (some (recv, sent, heads)) := by
+      simp [LState.finishedOuts, hr]
     unfold LState.onSyncFinished at h
-    have hsend : ∀ (s : LState) (n : Bytes) (ev : Ev), Out.broadcast ns true pl ∉ (s.send n ev).2 := by
-      intro s n ev
-      unfold LState.send
-      split <;> simp
-    have hdial : ∀ (s : LState) (r : Reason), Out.broadcast ns true pl ∉ (s.syncWithPeer ns p r).2 := by
-      intro s r
-      unfold LState.syncWithPeer
-      split
-      · simp
-      · split <;> simp
-    simp only [hr, if_false, List.append_nil] at h
     split at h
-    · simp at h
+    · exact hf h
     · split at h
-      · simp at h
-      · simp only [List.mem_append, List.mem_singleton] at h
-        rcases h with ((h | h) | h) | h
-        · cases h
-        · exact hsend _ _ _ h
-        · split at h
-          · simp at h
-          · exact hsend _ _ _ h
-        · split at h
-          · exact hdial _ _ h
-          · simp at h
+      · exact hf h
+      · rcases List.mem_append.mp h with h | h
+        · exact hf h
+        · exact broadcast_not_in_afterFinish _ _ _ _ _ _ _ _ _ h
 
 /-! ## the download queue -/
 
@@ -370,5 +385,89 @@ example :
     o1 = [.reply true] ∧ o2 = [.download nsA hA pA] ∧ wanted s2 nsA hA = true ∧
     o3 = [.broadcast nsA false [0, 9]] ∧ o4 = [.acceptOutcome 0] := by
   decide
+
+end Live
+
+namespace Live
+
+/-! ## C11 (continued): the end of a session frees the slot as in the protocol model -/
+
+theorem send_docs (s : LState) (n : Bytes) (ev : Ev) : (s.send n ev).1.docs = s.docs := by
+  unfold LState.send
+  split <;> rfl
+
+theorem slot?_send (s : LState) (n : Bytes) (ev : Ev) (ns p : Bytes) : (s.send n ev).1.slot? ns p = s.slot? ns p := by
+  simp [LState.slot?, LState.doc?, send_docs]
+
+theorem slot?_updDoc_mayEmit (s : LState) (n : Bytes) (b : Bool) (ns p : Bytes) :
+    (s.updDoc n (fun d => { d with mayEmit := b })).slot? ns p = s.slot? ns p := by
+  unfold LState.slot? LState.doc? LState.updDoc
+  simp only
+  induction s.docs with
+  | nil => rfl
+  | cons x xs ih =>
+    simp only [List.map_cons, List.find?_cons]
+    by_cases hx : x.ns == n
+    · simp only [hx, if_true]
+      by_cases h2 : x.ns == ns
+      · simp [h2, Doc.slot]
+      · simp only [h2]; exact ih
+    · simp only [hx, Bool.false_eq_true, if_false]
+      by_cases h2 : x.ns == ns
+      · simp [h2]
+      · simp only [h2]; exact ih
+
+theorem queuedNs_send (s : LState) (n : Bytes) (ev : Ev) (ns : Bytes) : (s.send n ev).1.queuedNs ns = s.queuedNs ns := by
+  unfold LState.send
+  split <;> rfl
+
+theorem afterFinish_slot (s1 : LState) (ns p : Bytes) (origin : Nat) (res : Option (Nat × Nat)) (r : Bool)
+    (hs1 : s1.slot? ns p = some (.idle, r)) :
+    (s1.afterFinish ns p origin res r).1.slot? ns p = some (if r then (.conn, false) else (.idle, false)) := by
+  unfold LState.afterFinish
+  simp only
+  have h3 : ∀ (q : Bool), (if q then ((s1.send ns (.syncFinished p origin res)).1.updDoc ns (fun d => { d with mayEmit := true }), ([] : List Out))
+      else (((s1.send ns (.syncFinished p origin res)).1.send ns .pendingContentReady).1.updDoc ns (fun d => { d with mayEmit := false }),
+            ((s1.send ns (.syncFinished p origin res)).1.send ns .pendingContentReady).2)).1.slot? ns p = some (.idle, r) := by
+    intro q
+    cases q
+    · simp only [Bool.false_eq_true, if_false]
+      rw [slot?_updDoc_mayEmit, slot?_send, slot?_send]; exact hs1
+    · simp only [if_true]
+      rw [slot?_updDoc_mayEmit, slot?_send]; exact hs1
+  cases r
+  · simp only [Bool.false_eq_true, if_false]
+    exact h3 _
+  · simp only [if_true]
+    have := (syncWithPeer_slot _ ns p 3 (.idle, true)
+      (h3 ((s1.send ns (.syncFinished p origin res)).1.queuedNs ns))).1
+    simpa [nodeOf, Coord.Node.startConnect] using this
+
+/-- `on_sync_finished` acts on the slot as `Coord.Node.finish`: the slot is freed whatever the origin and
+the result, and a refused report is followed up by exactly one dial -/
+theorem finish_slot (s : LState) (ns p : Bytes) (origin : Nat) (res : Option (Nat × Nat × Heads.H))
+    (x : Coord.St × Bool) (h : s.slot? ns p = some x) :
+    (s.onSyncFinished ns p origin res).1.slot? ns p =
+      some (((nodeOf x).finish).st, ((nodeOf x).finish).resync) := by
+  unfold LState.slot? at h
+  cases hd : s.doc? ns with
+  | none => simp [hd] at h
+  | some d =>
+    simp only [hd, Option.map_some, Option.some.injEq] at h
+    unfold LState.onSyncFinished
+    simp only [hd]
+    obtain ⟨st, r⟩ := x
+    rw [h]
+    have hs0 : (s.updDoc ns (·.setSlot p (.idle, r))).slot? ns p = some (.idle, r) := slot?_set s ns p _ d hd
+    cases st with
+    | idle => simp [nodeOf, Coord.Node.finish, hs0]
+    | conn =>
+      simp only
+      rw [afterFinish_slot _ ns p origin _ r hs0]
+      cases r <;> simp [nodeOf, Coord.Node.finish, Coord.Node.startConnect]
+    | acc =>
+      simp only
+      rw [afterFinish_slot _ ns p origin _ r hs0]
+      cases r <;> simp [nodeOf, Coord.Node.finish, Coord.Node.startConnect]
 
 end Live
